@@ -79,7 +79,7 @@ Qed.
 Theorem anchored_step kd st o : anchored st -> anchored (fst (step kd st o)).
 Proof.
   intros Ha. unfold HashModel.step. destruct (op_allowed kd o); cbn [negb]; [|cbn [fst]; auto].
-  destruct o as [x c|x|x k|x k|x pos k v|x k v|x k v|x k|x r|x r|x|x|x|x y|x|x|x y|x y|x y|x y|x y|x k v].
+  destruct o as [x c|x|x k|x k|x pos k v|x k v|x k v|x k|x r|x r|x|x|x|x y|x|x|x y|x y|x y|x y|x y|x k v|x|x].
   - destruct (c <? 0); [cbn [fst]; auto|]. apply with_var_anchored; auto.
   - apply with_var_anchored; auto.
   - apply with_var_anchored; auto.
@@ -110,6 +110,8 @@ Proof.
   - apply with_2_anchored; auto. intros a b Ea Eb. cbn [fst]. apply anchored_upd; auto.
     rewrite owner_remove_all. apply Ha. exact Ea.
   - apply with_var_anchored; auto. intros t Ht. destruct (find_node t k) as [[r n]|]; cbn [fst]; auto.
+  - apply with_var_anchored; auto.
+  - apply with_var_anchored; auto.
 Qed.
 
 Lemma init_from_owner (cs : list Z) : forall i x (t : table), nth_error (init_from i cs) x = Some t -> end_owner t = (i + x)%nat.
